@@ -1225,11 +1225,20 @@ func ruleEarlyRegexp(c *Ctx, r *R) {
 		{"regexp", "Compile", "the translated pattern is compiled at parse time"},
 	} {
 		var call *ssa.Call
-		for _, b := range fn.Blocks {
-			for _, ins := range b.Instrs {
-				if cl, ok := ins.(*ssa.Call); ok {
-					if callee := cl.Call.StaticCallee(); callee != nil && callee.Name() == want.name && callee.Pkg != nil && callee.Pkg.Pkg.Path() == want.pkg {
-						call = cl
+		// in the literal's parser itself or in a helper that only it calls
+		family := []*ssa.Function{fn}
+		for _, f := range c.AllSrcFuncs("parser") {
+			if f != fn && f.Parent() == nil && c.partOf(f, fn.Name(), 0) {
+				family = append(family, f)
+			}
+		}
+		for _, fam := range family {
+			for _, b := range fam.Blocks {
+				for _, ins := range b.Instrs {
+					if cl, ok := ins.(*ssa.Call); ok {
+						if callee := cl.Call.StaticCallee(); callee != nil && callee.Name() == want.name && callee.Pkg != nil && callee.Pkg.Pkg.Path() == want.pkg {
+							call = cl
+						}
 					}
 				}
 			}
